@@ -848,11 +848,11 @@ pub fn run(ctx: &mut Ctx) {
     check_constants(ctx);
     known_range_below_min(ctx);
     let plan: [(&str, u64, u64); 6] = [
-        ("bitpack", 500, 3_200),
-        ("codec", 230, 1_500),
+        ("bitpack", 500, 2_800),
+        ("codec", 230, 1_350),
         ("optidx", 60, 350),
-        ("columnar", 260, 2_000),
-        ("merge", 220, 1_800),
+        ("columnar", 260, 1_650),
+        ("merge", 220, 1_450),
         ("tantivy", 14, 80),
     ];
     for (kind, q, t) in plan {
